@@ -37,7 +37,9 @@ def strategy(tier):
         spec = draw(gen.with_contracts(spec))
         ops = draw(gen.histories(spec, 6, 15, p_all=0.4, p_none=0.2))
         ks = None if big else draw(st.lists(st.floats(0, 0.999), min_size=4, max_size=10))
-        return {'spec': spec, 'ops': ops, 'ks': ks}
+        # counter 'w': fragments only mutate the context in place (no name is ever rebound)
+        return {'spec': spec, 'ops': ops, 'ks': ks,
+                'counter': draw(st.sampled_from(['v', 'v', 'w']))}
     return cases()
 
 
@@ -233,7 +235,8 @@ def check_fault_free(spec, tree, recs):
 
 def oracle(case):
     from ..cli import sha
-    spec = probes.instrument(case['spec'], contracts=True, cond_fn=True)
+    spec = probes.instrument(case['spec'], contracts=True, cond_fn=True,
+                             counter=case.get('counter', 'v'))
     tree = Tree(spec)
     tab = cond_table(spec)
     labels, keys, viol = {}, [], []
